@@ -112,7 +112,8 @@ def execReload (props : JVal) : M (R ExecRes) := do
     let t ← syncCoroutine "arbiter_reload" (.arbReload g s) []
     pure (t.map fun tid => .future tid "")
 
-/-- body of one synchronized `set_opt` call (`lenient`: the hooks.* keys never fail in the model) -/
+/-- body of one synchronized `set_opt` call (`lenient` is no longer used: a `hooks.*` value that cannot be split, whose flag is
+    no boolean word or whose name does not resolve raises like any other option) -/
 def setOptBody (u : Nat) (key : String) (val : JVal) (lenient : Bool) : M (R Unit) := do
   let ok ← setOpt u key val
   pure (if ok || lenient then .ok () else .error (.other "ValueError"))
@@ -135,8 +136,12 @@ def execSet (props : JVal) : M (R ExecRes) := do
           | .obj hs =>
             for h in hs do
               if err.isNone then
-                let r ← syncPlain "watcher_set_opt" (setOptBody u ("hooks." ++ h.1) h.2 true)
+                let r ← syncPlain "watcher_set_opt" (setOptBody u ("hooks." ++ h.1) h.2 false)
                 match r with | .error e => err := some e | .ok _ => pure ()
+            -- `action = watcher.set_opt('hooks.%s' % name, _val)`: the loop variable IS the accumulated action — a hook that
+            -- is set (set_opt returns 0) resets a restart an earlier option of the same request had asked for.  (When one of
+            -- them raises the request fails and the action is never used: resetting for any non-empty dict is the same.)
+            if !hs.isEmpty then action := 0
           | _ => pure ()
         else
           let r ← syncPlain "watcher_set_opt" (setOptBody u key val false)
